@@ -3,6 +3,8 @@ package props
 import (
 	"fmt"
 
+	"github.com/AsaiYusuke/jsonpath"
+
 	"pgregory.net/rapid"
 
 	"verif/harness/gen"
@@ -35,7 +37,7 @@ func drawC03(rt *rapid.T) *Case {
 	default:
 		d = g.Doc(p)
 	}
-	return &Case{Path: text, Doc: d, UseNumber: rapid.Bool().Draw(rt, "usenumber"), Funcs: true, Strs: []string{fam}}
+	return &Case{Path: text, Doc: d, UseNumber: rapid.Bool().Draw(rt, "usenumber"), Funcs: true, Accessor: gen.Uniform(rt, "accessor", 4) == 0, Strs: []string{fam}}
 }
 
 // checkC03Text is checkC03 for cases whose document is given as text (native fuzzing, replays).
@@ -48,7 +50,7 @@ func checkC03(c *Case, st *Stats) string {
 	}
 	Journal(c.Check, c.Path, docText, flagString(c))
 	rec := &Recorder{}
-	f, err := parseWith(c.Path, c.Funcs, false, rec)
+	f, err := parseWith(c.Path, c.Funcs, c.Accessor, rec)
 	if err != nil || f == nil {
 		st.Class("parse:rejected")
 		return ""
@@ -59,6 +61,15 @@ func checkC03(c *Case, st *Stats) string {
 	st.Eval(1)
 	if msg := runtimeOutcome(got, rerr); msg != "" {
 		return msg
+	}
+	if c.Accessor {
+		st.Class("mode:accessor")
+		for i, v := range got {
+			a, ok := v.(jsonpath.Accessor)
+			if !ok || a.Get == nil {
+				return fmt.Sprintf("accessor mode: result %d is %T (or has a nil Get)", i, v)
+			}
+		}
 	}
 	info := DescribeErr(rerr)
 	if info.Type == "ErrorFunctionFailed" && rec.Errs == 0 {
